@@ -42,7 +42,7 @@ func (c06) Describe() Description {
 		Rule: "one case = a valid package (built through the library API with all op families, or written by the independent foreign producer) damaged by 1-3 faults drawn from the " +
 			"storage model (S-torn, S-zero sector, S-flip bit, S-dup/drop/swap 4KiB block, S-stale = previous version) and the faulty-producer model applied to one part inside a " +
 			"well-formed container (P-cut, P-empty, P-missing, P-misnest, P-root incl. the ISO-strict namespace, P-place: table in run / properties without values / grid removed / " +
-			"non-numeric and huge numbers, P-repeat and P-nest up to 10000), opened through Open(path) or OpenFromMemory with a faulty reader (R-short, R-err(k), R-eof(k), R-zero, " +
+			"non-numeric and huge numbers, P-repeat and P-nest up to 10000, P-vocab: elements of the vocabulary in places and spellings the library does not write, P-selfclose: empty-element tags), opened through Open(path) or OpenFromMemory with a faulty reader (R-short, R-err(k), R-eof(k), R-zero, " +
 			"R-closeerr). If a document is returned: accessor sweep (counts, texts, headings, page settings, properties, every table's declared cell range and iterator), editing " +
 			"sweep (append, structural table edits on rectangular tables, cell edits, image, header, margins), then ToBytes. Oracle: no call panics; Open returns exactly one of " +
 			"(document, nil) / (nil, error); with only R-short the outcome equals the unfaulted outcome; the regenerated main part of the re-save is well-formed; every case finishes " +
@@ -64,7 +64,7 @@ func (c06) Nontrivial(c *sim.Case, st *sim.Stats) bool {
 }
 
 var c06storage = []string{"S-torn", "S-zero", "S-flip", "S-dup", "S-drop", "S-swap", "S-stale"}
-var c06producer = []string{"P-cut", "P-empty", "P-missing", "P-misnest", "P-root", "P-place", "P-repeat", "P-nest"}
+var c06producer = []string{"P-cut", "P-empty", "P-missing", "P-misnest", "P-root", "P-place", "P-repeat", "P-nest", "P-vocab", "P-selfclose"}
 var c06reader = []string{"R-short", "R-err", "R-eof", "R-zero", "R-closeerr"}
 
 func (c06) Gen(r *sim.Rand, c *sim.Case, tier string) {
@@ -211,6 +211,16 @@ var (
 	reRootOpen = regexp.MustCompile(`<([A-Za-z0-9]+:)?(document|Types|Relationships|styles)([ >])`)
 )
 
+var (
+	reAnyTag    = regexp.MustCompile(`</?[A-Za-z][A-Za-z0-9:]*[^<>]*>`)
+	reEmptyPair = regexp.MustCompile(`<([A-Za-z][A-Za-z0-9:]*)((?: [^<>]*)?)></([A-Za-z][A-Za-z0-9:]*)>`)
+	c06vocab    = []string{"m:oMath", "m:oMathPara", "w:sdt", "w:sdtContent", "w:hyperlink", "w:ins", "w:del", "w:smartTag", "w:fldSimple", "w:bookmarkStart", "w:bookmarkEnd",
+		"w:proofErr", "w:commentRangeStart", "mc:AlternateContent", "w:pict", "w:object", "w:drawing", "wp:inline", "wp:anchor", "a:graphic", "a:graphicData", "pic:pic",
+		"w:tbl", "w:tr", "w:tc", "w:p", "w:r", "w:t", "w:br", "w:tab", "w:sectPr", "w:pPr", "w:rPr", "w:numPr", "w:tblPr", "w:tblGrid", "w:gridCol", "w:tcPr", "w:trPr",
+		"w:pBdr", "w:tabs", "w:sym", "w:fldChar", "w:instrText", "w:footnoteReference", "w:endnoteReference", "w:lastRenderedPageBreak", "w:pgSz", "w:pgMar",
+		"w:headerReference", "w:footerReference", "w:docGrid", "w:body", "w:document", "MathParagraph"}
+)
+
 // producerFault damages one part's XML text.
 func producerFault(kind string, data []byte, a, b, variant, n int) []byte {
 	s := string(data)
@@ -300,6 +310,31 @@ func producerFault(kind string, data []byte, a, b, variant, n int) []byte {
 					return []byte(rest[:at] + p + rest[at:])
 				}
 			}
+		}
+	case "P-vocab":
+		// an element of the WordprocessingML / DrawingML / math vocabulary where the library did not put one, in one of the spellings
+		// a producer may use: empty-element tag, start and end tag with nothing between, or with a run inside
+		if m := pickMatch(reAnyTag, a); m != nil {
+			name := c06vocab[b%len(c06vocab)]
+			ins := "<" + name + "/>"
+			switch variant % 4 {
+			case 1:
+				ins = "<" + name + "></" + name + ">"
+			case 2:
+				ins = "<" + name + "><w:r><w:t>v</w:t></w:r></" + name + ">"
+			case 3:
+				ins = "<" + name + " w:val=\"1\" w:id=\"7\" r:id=\"rId1\"/>"
+			}
+			return []byte(s[:m[0]] + ins + s[m[0]:])
+		}
+	case "P-selfclose":
+		// the empty-element spelling: <x a="b"></x> becomes <x a="b"/> everywhere (variant 0) or at one place - what every producer
+		// but Go's encoder writes
+		if variant%2 == 0 {
+			return []byte(reEmptyPair.ReplaceAllString(s, "<$1$2/>"))
+		}
+		if m := pickMatch(reEmptyPair, a); m != nil {
+			return []byte(s[:m[0]] + reEmptyPair.ReplaceAllString(s[m[0]:m[1]], "<$1$2/>") + s[m[1]:])
 		}
 	case "P-repeat":
 		if m := pickMatch(rePara, a); m != nil {
